@@ -373,3 +373,39 @@ func VF_C07_ComplexExtremes(sel, _ int) {
 	vf.Assert("compare-iff-rank-equal", k.CompareValues(a, b) == (rab == eq))
 	vf.Reach("end")
 }
+
+// VF_C07_NilInside: "an undefined value ranks before every defined one" also below the top level: nil elements of
+// []any, nil pointers in []*int, nil values in map[string]any, nil items in a List[any].
+func VF_C07_NilInside(kind, _ int) {
+	x := vf.Int64("x")
+	s := vf.String("s", 1)
+	k := age.Collator[any]().Make()
+	check := func(tag string, undefined, defined any) {
+		vf.Assert(tag+"-nil-ranks-first", k.RankValues(undefined, defined) == lt)
+		vf.Assert(tag+"-mirror", k.RankValues(defined, undefined) == gt)
+		vf.Assert(tag+"-not-equal", !k.CompareValues(undefined, defined))
+	}
+	vf.Budget(100 * listBudget)
+	switch kind {
+	case 0:
+		check("slice-of-any-int", []any{nil}, []any{x})
+		check("slice-of-any-string", []any{int64(1), nil}, []any{int64(1), s})
+	case 1:
+		cell := int(x)
+		check("slice-of-pointers", []*int{nil}, []*int{&cell})
+	case 2:
+		check("map-value", map[string]any{"a": nil}, map[string]any{"a": x})
+	case 3:
+		check("list-item", col.List[any](nil).MakeFromArray([]any{nil}), col.List[any](nil).MakeFromArray([]any{x}))
+		check("catalog-value", catalogAny("k", nil), catalogAny("k", s))
+	}
+	vf.Assert("depth-restored", k.GetDepth() == 0)
+	vf.BudgetReset()
+	vf.Reach("end")
+}
+
+func catalogAny(key string, v any) any {
+	c := col.Catalog[string, any](nil).Make()
+	c.SetValue(key, v)
+	return c
+}
